@@ -18,7 +18,7 @@ import io
 from fractions import Fraction
 
 from sim import core, shrink as shr
-from sim.producers import text as ptext, stl as pstl, ttml as pttml
+from sim.producers import text as ptext, stl as pstl, ttml as pttml, scc608 as pscc
 
 core.ensure_repo_on_path()
 
@@ -296,7 +296,7 @@ def _readers():
   return READERS
 
 
-PRODUCERS = {"srt": ptext.srt, "vtt": ptext.vtt, "scc": ptext.scc_simple, "stl": pstl.stl, "ttml": pttml.ttml}
+PRODUCERS = {"srt": ptext.srt, "vtt": ptext.vtt, "scc": pscc.scc_mixed, "stl": pstl.stl, "ttml": pttml.ttml}
 
 
 def build(recipe):
